@@ -218,6 +218,10 @@ def c17(ctx):
 def c18(ctx):
     thorough = ctx.tier == "thorough"
     V.mc(ctx, "MC_C18", cfg="MC_C18_thorough.cfg" if thorough else "MC_C18.cfg")
+    # B2: every reader script of the bounded model replayed on the real ReadFrom (scaled to 188-byte packets)
+    scr = os.path.join(ctx.dir, "c18.scripts.ndjson")
+    V.tlc_emit(ctx, "Gen_C18", scr, timeout=1800)
+    V.table_compare(ctx, scr, name="scripts", as_behaviours=True)
     summ = V.gen_traces(ctx, shards=8)
     V.validate(ctx, "Trace_C18", summ, V.default_sig)
     return V.finish(ctx, "model_checking",
